@@ -23,6 +23,30 @@ CLAIMED = {
     ),
 }
 
+CLAIMED["C14"] = (
+    "interprocedural ownership/effect analysis (conditional write sets, return aliases) to a fix-point over the call graph",
+    "Static and path-complete for the structural content of the property: every function with an in-place flag writes to and "
+    "returns its operand only under that flag; every other value-returning function has an empty write set on its parameters; "
+    "copies get new block/sign tables and assign every slot on every path; index tables shared between copies have no writer; "
+    "no in-place array write targets a shared block; no dict is resized while iterated. Quantifies over all call sites, i.e. "
+    "all programs of public operations, which no finite test sample reaches.",
+    "Assumes backend (numpy/torch/autoray) functions are pure and may return views; trusts the engine's over-approximate call "
+    "resolution and the exemption tables printed in the evidence (constructors, commands, modify, __i*__, lazy slot init, memo "
+    "slots). Does not decide numerical equality of in-place and out-of-place results beyond 'same statements on a faithful copy'.",
+    "DESIGN.md section 2, C14",
+)
+CLAIMED["C09"] = (
+    "typestate (Synced/MaybeLazy) + taint classification of block-value uses, context-sensitive through the FermionicArray MRO",
+    "Static must-sync analysis over all paths from every public entry point with a FermionicArray operand: block values of a "
+    "possibly-lazy array are only used by sign-equivariant (key-preserving linear), sign-even, or phase-aware constructs, or "
+    "after phase_sync on that array; every re-keying of blocks is mirrored on the sign table; signs are consumed exactly once, "
+    "by phase_sync only. Found and fixed two genuine defect groups (eigh/solve; reductions/unary maps/item/expm).",
+    "Trusts the declared linear-algebra facts (QR/SVD commute with a sign on the left factor; abs is sign even; conj/transpose/"
+    "reshape/slicing/scalar multiplication are linear) whose structural side conditions are checked, and numpydoc parameter types. "
+    "Does not decide numerical equality itself.",
+    "DESIGN.md section 2, C09",
+)
+
 PENDING = "check not built yet (construction in progress; see DESIGN.md section 2 for the planned static rule)"
 NOT_APPLICABLE = {
     "C07": "reshape content preservation and the axis-matching routine are arithmetic over runtime shapes; no clause is a "
